@@ -247,6 +247,9 @@ def c03(run):
     quick = run.tier == "quick"
     run.build_harness()
     run.tlc("Chain", ch_cfg(3, 2, "chain", dev=["D8"], emit=False), name="CH_neg_D8", expect_violation="PropertyHolds", heap="24g")
+    # liveness (no CONSTRAINT, fair specification): every request of every chain ends, and an ended request stays ended
+    run.model_check("Chain", "SPECIFICATION FairSpec\nCONSTANTS\n" + CH_CONST % (2, 2, "chain", "{}", "FALSE") +
+                    "PROPERTY EventuallyEnds\nPROPERTY EndedIsFinal\nCHECK_DEADLOCK FALSE\n", name="CH_live_n2", heap="16g")
     ch_family(run, "chain_n2", 2, 2, "chain")
     if not quick:
         ch_family(run, "chain_n3", 3, 2, "chain")
@@ -383,6 +386,9 @@ def c05(run):
     run.fatal_race_is_violation = True
     for d in ("SHAREDSLICE", "NOONCE", "SHAREDRENDER", "SHAREDSRC", "SHAREDPARAMS"):
         run.tlc("Concurrent", cc_cfg(2, dev=[d], emit=False, view=True), name="CC_neg_" + d, expect_violation="ReadOnlyAfterSetup")
+    # liveness under per-request fairness, and no request ever waits for another one
+    run.model_check("Concurrent", "SPECIFICATION FairSpec\nCONSTANTS\n NProc = 2\n Dev = {}\n EmitCases = FALSE\n"
+                    "PROPERTY EveryRequestAnswered\nINVARIANT NoWaiting\nCHECK_DEADLOCK FALSE\n", name="CC_live", heap="16g")
     # all interleavings of the model; the behaviours are emitted with their schedule of gate steps
     r = run.model_check("Concurrent", cc_cfg(2 if quick else 3), name="CC_gen", want_cases=True, heap="24g")
     uniq = os.path.join(run.work, "cc_uniq.jsonl")
